@@ -1432,8 +1432,7 @@ inline constexpr void Conversion<Unit::MemoryRate, Unit::MemoryRate::PebibytePer
 }
 
 template <typename NumericType>
-inline const std::map<Unit::MemoryRate,
-                      std::function<void(NumericType* values, const std::size_t size)>>
+inline const ConversionTable<Unit::MemoryRate, NumericType>
     MapOfConversionsFromStandard<Unit::MemoryRate, NumericType>{
       {Unit::MemoryRate::BitPerSecond,
        Conversions<Unit::MemoryRate, Unit::MemoryRate::BitPerSecond>::FromStandard<NumericType>   },
@@ -1610,8 +1609,7 @@ inline const std::map<Unit::MemoryRate,
 };
 
 template <typename NumericType>
-inline const std::map<Unit::MemoryRate,
-                      std::function<void(NumericType* const values, const std::size_t size)>>
+inline const ConversionTable<Unit::MemoryRate, NumericType>
     MapOfConversionsToStandard<Unit::MemoryRate, NumericType>{
       {Unit::MemoryRate::BitPerSecond,
        Conversions<Unit::MemoryRate, Unit::MemoryRate::BitPerSecond>::ToStandard<NumericType>     },
